@@ -96,6 +96,14 @@ def conc_cases(rng, n):
                {"op": "race_expire", "n": 0, "ref": ref, "i": rng.choice([5000, 20000, 40000])},
                {"op": "send", "a": 0, "b": 1, "max": 1400}, {"op": "deliver", "i": 0, "max": 1400}, {"op": "deliver", "i": 0, "max": 1400}]
         out.append({"id": "conc%d" % i, "nodes": nodes, "ops": ops})
+    # the same race with a SLOW subscriber: callbacks of one kind take 150 us. With the state lock held during the callback
+    # nothing can overtake it; a notification delivered after the lock was released is overtaken by the re-discovery
+    for i, kind in enumerate(["expired", "join", "unreach", "all"][:max(2, n)]):
+        nodes = [{"id": H(IDS[j]), "addr": H("10.0.0.%d:7000" % (j + 1))} for j in range(2)]
+        ops = [{"op": "upsert", "n": 1, "k": H("k"), "v": H("v")}, {"op": "join", "a": 1, "b": 0},
+               {"op": "race_expire", "n": 0, "ref": H("zz") if i % 2 == 0 else H("b"), "i": 250, "e": kind, "d": 150000},
+               {"op": "send", "a": 0, "b": 1, "max": 1400}, {"op": "deliver", "i": 0, "max": 1400}, {"op": "deliver", "i": 0, "max": 1400}]
+        out.append({"id": "conc-slow-%s" % kind, "nodes": nodes, "ops": ops})
     return out
 
 
